@@ -61,8 +61,9 @@ impl SignedRegister {
 
     /// Verfies a SignedRegister
     pub fn verify(&self) -> Result<()> {
+        // `add_op` lets a register grow to exactly MAX_REG_NUM_ENTRIES, so that size must verify
         let reg_size = self.ops.len();
-        if reg_size >= MAX_REG_NUM_ENTRIES as usize {
+        if reg_size > MAX_REG_NUM_ENTRIES as usize {
             return Err(Error::TooManyEntries(reg_size));
         }
 
@@ -101,7 +102,17 @@ impl SignedRegister {
     /// Merge two SignedRegisters
     pub fn merge(&mut self, other: &Self) -> Result<()> {
         self.register.verify_is_mergeable(&other.register)?;
+        self.check_merged_size(other)?;
         self.ops.extend(other.ops.clone());
+        Ok(())
+    }
+
+    /// A merge must not produce a register with more entries than any replica would verify.
+    fn check_merged_size(&self, other: &Self) -> Result<()> {
+        let merged_size = self.ops.union(&other.ops).count();
+        if merged_size > MAX_REG_NUM_ENTRIES as usize {
+            return Err(Error::TooManyEntries(merged_size));
+        }
         Ok(())
     }
 
@@ -110,6 +121,7 @@ impl SignedRegister {
     pub fn verified_merge(&mut self, other: &Self) -> Result<()> {
         self.register.verify_is_mergeable(&other.register)?;
         other.verify()?;
+        self.check_merged_size(other)?;
         self.ops.extend(other.ops.clone());
         Ok(())
     }
